@@ -113,9 +113,21 @@ def corrupt_late(b, value):
     return WrongType(), False
 
 
+# a session's configuration is one int: PRUDP minor version + 100 * index of the NEX version in the settings
+# (the structures' version-gated attributes — `if settings["nex.version"] >= 30500: if version >= 1:` — are only
+#  read / written under the later NEX versions)
+NEX_VERSIONS = [0, 30500, 30800, 40500]
+
+
+def config_settings(cfg):
+    S = nexsettings.default()
+    S["nex.version"] = NEX_VERSIONS[cfg // 100]
+    return S
+
+
 class Peer:
     def __init__(self, minor):
-        self.minor = minor
+        self.minor = minor % 100
         self.inbox = collections.deque()
         self.sent = []
         self.idle = False
@@ -190,7 +202,9 @@ def instrument(srvinfo, cell):
             if mode == "wrong": return WrongType()
             if mode == "missing":
                 obj = rmc.RMCResponse()
-                for f in m["fields"][:-1]: setattr(obj, f, 0)
+                drop = sc.get("k", len(m["fields"]) - 1) % len(m["fields"])     # which field is missing (default: the last)
+                for i, f in enumerate(m["fields"]):
+                    if i != drop: setattr(obj, f, 0)
                 return obj
             if mode in ("ok", "partial", "wrongpos"):
                 b.rng = random.Random(sc["vseed"] + 1)
@@ -250,7 +264,7 @@ async def run_session(srvinfos, cases, minor=0, max_yields=200, prebuilt=None):
     A session is one connection: a new RMCClient (and, unless `prebuilt`, new server objects)."""
     cell, servers = prebuilt if prebuilt else prebuild(srvinfos)
     peer = Peer(minor)
-    S = nexsettings.default()
+    S = config_settings(minor)
     client = rmc.RMCClient(S, peer)
     state = {"loop": "alive"}
     async def loop():
